@@ -63,7 +63,7 @@ type plan struct {
 }
 
 const unitsPerCase = 24
-const quickFaultSlots = 10
+const quickFaultSlots = 16
 const quickFaultChunks = 12
 
 func (p *c16) tree(i int) *seedTree {
@@ -103,7 +103,7 @@ func (p *c16) plan(tier string) *plan {
 		}
 		pl.Segs = []segment{{"gen", 20000}, {"legacy", 8000}, {"seed", len(c)}, {"tmpl", 2500}, {"fault", len(pl.Faults)}, {"rand", 2500}}
 	} else {
-		pl.Segs = []segment{{"gen", 300}, {"legacy", 200}, {"seed", len(c)}, {"tmpl", 60}, {"fault", quickFaultSlots * quickFaultChunks}, {"rand", 40}}
+		pl.Segs = []segment{{"gen", 300}, {"legacy", 300}, {"seed", len(c)}, {"tmpl", 100}, {"fault", quickFaultSlots * quickFaultChunks}, {"rand", 60}}
 	}
 	for _, s := range pl.Segs {
 		pl.Total += s.Count
@@ -128,7 +128,7 @@ func (pl *plan) locate(gen int) (string, int) {
 
 func (p *c16) Directed() []string {
 	return []string{
-		"known:legacy-subflow-config-empty", "known:router-cases-null", "current-untouched", "webhook-templates", "dial-wait-phone",
+		"known:legacy-subflow-config-empty", "known:router-cases-null", "legacy-form-field-operand", "number-literal-scale", "current-untouched", "webhook-templates", "dial-wait-phone",
 		"legacy-shared-category", "long-names", "und-language", "templating-shapes", "hostile-bytes", "own-testdata-pairs",
 	}
 }
@@ -358,17 +358,25 @@ func (p *c16) runLegacy(c fw.Case, ck *checker, r *fw.Rand) {
 	res.Seen("legacy_flow_types", ft)
 	doc := decodeObject(data)
 	ex := legacyExpectOf(doc, true)
-	for _, rs := range doc["rule_sets"].([]any) {
-		res.Seen("legacy_ruleset_types", str(rs.(map[string]any)["ruleset_type"]))
-		for _, rl := range rs.(map[string]any)["rules"].([]any) {
-			if t, ok := rl.(map[string]any)["test"].(map[string]any); ok {
+	rsl, _ := doc["rule_sets"].([]any)
+	for _, rs := range rsl {
+		rsm, _ := rs.(map[string]any)
+		res.Seen("legacy_ruleset_types", str(rsm["ruleset_type"]))
+		rules, _ := rsm["rules"].([]any)
+		for _, rl := range rules {
+			rlm, _ := rl.(map[string]any)
+			if t, ok := rlm["test"].(map[string]any); ok {
 				res.Seen("legacy_test_types", str(t["type"]))
 			}
 		}
 	}
-	for _, as := range doc["action_sets"].([]any) {
-		for _, a := range as.(map[string]any)["actions"].([]any) {
-			res.Seen("legacy_action_types", str(a.(map[string]any)["type"]))
+	asl, _ := doc["action_sets"].([]any)
+	for _, as := range asl {
+		asm, _ := as.(map[string]any)
+		acts, _ := asm["actions"].([]any)
+		for _, a := range acts {
+			am, _ := a.(map[string]any)
+			res.Seen("legacy_action_types", str(am["type"]))
 		}
 	}
 	in := &validInput{Label: c.ID() + " legacy-gen", Version: "legacy", Data: data, Legacy: true, Known: true, LegacyEx: ex, UUIDSeed: int64(r.U64() >> 1)}
